@@ -306,7 +306,7 @@ theorem adjustFitness_uids (o : EpochOpts W) (s s' : Species W) (h : adjustFitne
     cases h
     simp only [markOrgs_uids]
     unfold sortOrgsDesc
-    refine ((goInsertionSort_perm _ _).map _).trans ?_
+    refine ((goSort_perm _ _).map _).trans ?_
     rw [List.map_map]
     exact List.Perm.of_eq (List.map_congr_left (by intro x _; rfl))
 
@@ -366,7 +366,7 @@ theorem prepare_spec_full (o : EpochOpts W) (p p1 : Pop W) (ex : ExecState) (rs 
             rw [hsorted]
             simp only [List.tail_cons, List.map_cons]
             rw [setTopOrg_key _ _ (by intro t; exact ⟨rfl, rfl⟩)]
-            have := (goInsertionSort_perm (fun a b => speciesLess b a) pz.species).map ukey
+            have := (goSort_perm (fun a b => speciesLess b a) pz.species).map ukey
             unfold sortSpeciesDesc at hsorted
             rw [hsorted] at this
             simpa using this
